@@ -5,15 +5,21 @@ use crate::{
 
 pub fn can_be_used<T, S>(lhs: Type, rhs: Type, can_be_used: T, return_type: S) -> bool
 where
-    T: FnOnce(&Type, &Type) -> bool,
-    S: FnOnce(&Type, &Type) -> Type,
+    T: Fn(&Type, &Type) -> bool,
+    S: Fn(&Type, &Type) -> Type,
 {
-    let Some(var_type) = lhs.mut_element_type() else {
-        return false;
+    let cell_can_be_used = |cell: &Type| {
+        let Some(var_type) = cell.mut_element_type() else {
+            return false;
+        };
+        can_be_used(&var_type, &rhs) && return_type(&var_type, &rhs).matches(&var_type)
     };
-    let can_be_used = can_be_used(&var_type, &rhs);
-    let return_type = return_type(&var_type, &rhs);
-    can_be_used && return_type.matches(&var_type)
+    // the target may be any of several kinds of cell: the assignment has to be
+    // valid for each of them, not for the union of their content types
+    match &lhs {
+        Type::Multi(cells) => cells.iter().all(cell_can_be_used),
+        cell => cell_can_be_used(cell),
+    }
 }
 
 pub fn exec<T: FnOnce(Variable, Variable) -> Variable>(
